@@ -809,8 +809,44 @@ def replay_finding(entry, ctx):
     return f if (f and matches_known(entry, c, f)) else None
 
 
+def table_candidates(ctx):
+    """after a broken table theorem: Scalar order cases on the units whose row is not well-formed any more (the rows
+    are found by the model's executable predicate `UnitRow.wf`, the hypothesis of the order theorems)"""
+    import engine
+    from common import dumps, unsym
+
+    db = ctx.db
+    rng = ctx.fresh_rng("C08table")
+    res, _ = engine.run_driver(DRIVER_EXE, [dumps(dict(op="badrows", db="posc"))])
+    out = []
+    for s_ in res[0].get("rows", []):
+        u = unsym(int(s_))
+        qt = db.GetQuantityType(u)
+        if qt is None:
+            continue
+        units = [i.unit for i in db.quantity_types[qt]]
+        for v in units[:6] + units[-2:]:
+            for ua, ub in ((u, v), (v, u)):
+                ca, cb = _cat_for(ctx, rng, qt, ua), _cat_for(ctx, rng, qt, ub)
+                if ca is None or cb is None:
+                    continue
+                for x in (1.0, -3.5, 120.0):
+                    for tag, vb in _amounts(db, rng, qt, ua, ub, x):
+                        out.append(_order_case(ctx, "scalar", (x, ua, ca), (vb, ub, cb), tag))
+    ctx.notes["cases_on_rows_failing_wf"] = len(out)
+    return out
+
+
 def search(ctx):
+    """equality pool first, then Fraction cases, then order cases; order cases of the documented input class
+    `CLASS_FLUSH` (a finding of its own, see the module docstring) come last so that they do not hide a new defect"""
     quick = ctx.tier == "quick"
     yield from _eq_cases(ctx, "wide")
     yield from _frac_cases(ctx, "search", 10)
-    yield from _order_cases(ctx, "search", 40 if quick else 200, 3, all_types=not quick)
+    late = []
+    for c in _order_cases(ctx, "search", 40 if quick else 200, 3, all_types=not quick):
+        if _flush_affects(c):
+            late.append(c)
+        else:
+            yield c
+    yield from late
